@@ -450,6 +450,28 @@ class World:
             **kw,
         )
 
+    def _params_for_call(self, qi):
+        """The params dict handed to PyDRex.  Normally the world's own dict object (as a
+        driver script would reuse one dict); with `fresh_params_per_call` an equal but newly
+        built dict for every call (results must not depend on dict identity or on what an
+        earlier call saw in a dict with the same id)."""
+        p = self.paramsets[qi]
+        if self.spec.get("fresh_params_per_call"):
+            q = dict(p)
+            q["phase_assemblage"] = type(p["phase_assemblage"])(p["phase_assemblage"])
+            q["phase_fractions"] = type(p["phase_fractions"])(p["phase_fractions"])
+            return q
+        return p
+
+    def do_set_fractions(self, i, op):
+        """Harness action: the driver rewrites the phase fractions of a params dict in place
+        between calls (composition changing along a pathline)."""
+        p = self.paramsets[op["params"]]
+        fr = [float(x) for x in op["fractions"]]
+        p["phase_fractions"] = type(p["phase_fractions"])(fr)
+        return {"i": i, "op": "set_fractions", "params": op["params"], "status": "ok", "exc": None,
+                "fault": None}
+
     def _F_in(self, mrec, op):
         return (mrec.F if op.get("F_from") is None else self.minerals[op["F_from"]].F).copy()
 
@@ -517,7 +539,7 @@ class World:
                         "phase": pydrex.MineralPhase}[attr]
                 v = op["override"][attr]
                 setattr(obj, attr, _enum_or_raw(enum, v) if op.get("override_as_enum", True) else v)
-        params = self.paramsets[qi]
+        params = self._params_for_call(qi)
         plan = None
         if fault is not None:
             kind = fault["kind"]
@@ -658,7 +680,7 @@ class World:
         _tls.solver_count = cnt = {}
         try:
             F_out = pydrex.update_all(
-                [m.obj for m in ms], self.paramsets[qi], F_in, cb.L, (t0, t1, cb.pos),
+                [m.obj for m in ms], self._params_for_call(qi), F_in, cb.L, (t0, t1, cb.pos),
                 get_regime=cb.regime if rf is not None else None, **kw,
             )
             rec["status"] = "ok"
@@ -824,6 +846,8 @@ class World:
             rec = self.do_update_all(i, op)
         elif kind == "restart":
             rec = self.do_restart(i, op)
+        elif kind == "set_fractions":
+            rec = self.do_set_fractions(i, op)
         elif kind == "overlap":
             from .overlap import do_overlap
 
